@@ -40,6 +40,13 @@ pub fn run(ctx: &Ctx, out: &mut Out) {
         let (text, _n, goals) = provisional_program(&mut rng, co);
         jobs.push((text, goals, true));
     }
+    // blanket impls over marker traits (closed goals): positive cycles through several tables
+    let nbl = ctx.budget(150, 5000);
+    for i in 0..nbl {
+        let mut rng = ctx.rng(5, i as u64);
+        let (text, _ex, gr) = blanket_program(&mut rng);
+        jobs.push((text, gr, false));
+    }
     for (text, goals, graph) in jobs {
         let (_db, program) = match lower_program(&text, chalk_integration::SolverChoice::slg_default()) {
             Ok(x) => x,
